@@ -457,3 +457,19 @@ mod test {
         assert_eq!(dot, "digraph {\n    0 [ label = \"a\"]\n    1 [ label = \"b\"]\n    0 -> 1 [ label = \"EDGE_LABEL\"]\n}\n");
     }
 }
+
+/// Verification hooks (feature `verif_hooks`): access to the private label escaper.
+#[cfg(feature = "verif_hooks")]
+pub mod verif_hooks {
+    use core::fmt;
+    /// Write `c` through the Graphviz label escaper into `out`.
+    pub fn escape_char<W: fmt::Write>(out: W, c: char) -> fmt::Result {
+        use fmt::Write;
+        super::Escaper(out).write_char(c)
+    }
+    /// Write `s` through the Graphviz label escaper into `out`.
+    pub fn escape_str<W: fmt::Write>(out: W, s: &str) -> fmt::Result {
+        use fmt::Write;
+        super::Escaper(out).write_str(s)
+    }
+}
